@@ -92,3 +92,51 @@ package bundle
 //@   props C05 C10
 //@   requires r != nil
 //@   assigns spos(r)
+
+//@ func parseSignaturesSection
+//@   props C05 C10
+//@   assigns nothing
+//@ func parseIndexSectionWithVariants
+//@   props C05 C10
+//@   returns (reqs, err)
+//@   ensures[entries-in-responses] err == nil ==> exists k int :: 0 <= k && k < len(sos) && sos[k].Name == "responses" && (forall j int :: 0 <= j && j < k ==> sos[j].Name != "responses") && (forall i int :: 0 <= i && i < len(reqs) ==> uint64(reqs[i].Offset - uint64(sectionsStart + secSum(arr(sos), off(sos), k))) + reqs[i].Length <= sos[k].Length)
+//@   assigns nothing
+//@   loop 0:
+//@     invariant fresh(requests)
+//@     invariant forall x int :: 0 <= x && x < len(requests) ==> uint64(requests[x].Offset - respSectionOffset) + requests[x].Length <= respso.Length
+//@   loop 1:
+//@     invariant fresh(requests)
+//@     invariant forall x int :: 0 <= x && x < len(requests) ==> uint64(requests[x].Offset - respSectionOffset) + requests[x].Length <= respso.Length
+
+//@ func parseListOfStringLists
+//@   props C03 C10
+//@   trusted
+//@   assigns nothing
+
+//@ func parseVariants
+//@   props C03 C10
+//@   assigns nothing
+
+//@ func (Variants).numberOfPossibleKeys
+//@   props C03 C10
+//@   returns (n, err)
+//@   ensures err == nil ==> 1 <= n && n <= maxNumVariantsForSingleURL
+//@   assigns nothing
+//@   loop 0:
+//@     invariant 1 <= n && n <= maxNumVariantsForSingleURL
+
+// decodeCborHeaders: on success every field of the encoded map is returned:
+// as many entries as the map head declares (so no field silently replaced an
+// earlier one with the same name).
+//@ func decodeCborHeaders
+//@   props C05 C10
+//@   returns (headers, pseudos, err)
+//@   requires dec != nil && dec.r != nil
+//@   ensures[no-field-lost] err == nil ==> len(headers) + len(pseudos) == headArg(sdata(dec.r), old(spos(dec.r)))
+//@   ensures err == nil ==> headers != nil && pseudos != nil && fresh(headers) && fresh(pseudos)
+//@   ensures spos(dec.r) >= old(spos(dec.r)) && spos(dec.r) <= send(dec.r)
+//@   assigns spos(dec.r)
+//@   loop 0:
+//@     invariant[count] len(headers) + len(pseudos) == j
+//@     invariant headers != nil && pseudos != nil && fresh(headers) && fresh(pseudos) && headers != pseudos
+//@     invariant spos(dec.r) >= old(spos(dec.r)) && spos(dec.r) <= send(dec.r)
